@@ -91,6 +91,13 @@ func (r Result) Panicked() bool {
 // when the library call fails the command must report an error (non-zero status or an [Error]
 // message) and print no result; otherwise the standard output must be the library's text.
 func Differential(args []string, stdin string, files map[string]string, lib func() (string, error)) error {
+	return DifferentialOut(args, stdin, files, "", lib)
+}
+
+// DifferentialOut is Differential for a command whose whole result goes to the file named by
+// its output option: with outFlag (e.g. "-o") set, the option is passed with a file name and the
+// file's content is what must equal the library's text (and nothing may be printed instead).
+func DifferentialOut(args []string, stdin string, files map[string]string, outFlag string, lib func() (string, error)) error {
 	if !Available() {
 		return fmt.Errorf("harness: gotree binary not built")
 	}
@@ -100,7 +107,16 @@ func Differential(args []string, stdin string, files map[string]string, lib func
 		Write(dir, n, c)
 	}
 	want, lerr := lib()
+	if outFlag != "" {
+		args = append(append([]string{}, args...), outFlag, "result.out")
+	}
 	r := Run(dir, stdin, args...)
+	if outFlag != "" {
+		if strings.TrimSpace(r.Stdout) != "" && lerr == nil {
+			return fmt.Errorf("the command was told to write to a file but prints %q (gotree %s)", clipS(r.Stdout), strings.Join(args, " "))
+		}
+		r.Stdout = Read(dir, "result.out")
+	}
 	ctx := fmt.Sprintf(" (gotree %s)", strings.Join(args, " "))
 	if r.TimedOut {
 		return fmt.Errorf("command did not finish%s", ctx)
